@@ -172,7 +172,20 @@ def check_case(p, ctx):
     if p["method"] == "lsq":
         tol = max(tol, 1e-3)
     if p["method"] == "lsq_linear":
-        tol = max(tol, 3e-4)
+        # this back-end rounds A^T b (not b) to 3 decimals and solves the bordered normal equations: propagate the
+        # 5e-4 per entry through the inverse of that system
+        n_c = len(cols)
+        K = np.zeros((n_c + 1, n_c + 1))
+        K[:n_c, :n_c] = A.T @ A
+        K[:n_c, n_c] = 1.0
+        K[n_c, :n_c] = 1.0
+        with np.errstate(all="ignore"):
+            Pk = np.linalg.pinv(K)
+        extra_k = float(np.max(np.abs(Pk[:n_c, :n_c]) @ np.full(n_c, 5e-4)))
+        tol = max(tol, 3e-4) + 3.0 * extra_k
+        if tol > 0.05:
+            ctx.skip("conditioning: tolerance > 0.05")
+            return
     kw = {"b_matrix": "velocity", "allow_negatives": False}
     if p["method"]:
         kw["method"] = p["method"]
